@@ -799,6 +799,35 @@ def share_equal_subnodes(spec, rng, prob=0.7):
     return out, counter[0]
 
 
+def dup_int_as_bool(spec, rng):
+    """Repeat one `key: <int>` entry of some mapping with a boolean value
+    (bool passes isinstance(x, int)), the second time perhaps in the dashed
+    spelling of the key: whichever occurrence counts, an int position must
+    not end up holding a bool.  Returns the new spec or None."""
+    cands = []
+    for p, sub in paths(spec):
+        if sub[0] != 'map':
+            continue
+        for i, (k, v) in enumerate(sub[1]):
+            if k[0] == 's' and k[1] == S.TAG_STR and v[0] == 's' and \
+                    v[1] == S.TAG_INT:
+                cands.append((p, i))
+    if not cands:
+        return None
+    p, i = rng.choice(cands)
+    m = copy.deepcopy(get_at(spec, p))
+    k, v = m[1][i]
+    k2 = list(k)
+    if '_' in k2[2] and rng.random() < 0.5:
+        k2[2] = k2[2].replace('_', '-')
+    dup = [k2, N.s_bool(rng.random() < 0.5)]
+    if rng.random() < 0.5:
+        m[1].append(dup)
+    else:
+        m[1].insert(rng.randint(0, len(m[1])), dup)
+    return set_at(spec, p, m)
+
+
 def alias_two_scalars(spec, rng):
     """Anchor one scalar value of a tree-shaped spec and put an alias to it
     where another scalar value stands (which thereby takes the first one's
